@@ -4,7 +4,7 @@ PROPS["C11"] = {
     "technique": "exhaustive enumeration of all (input, filter) pairs from two bounded tree generators, JSON and MessagePack, judged by a projection function "
                  "applied to the unfiltered result; allocator ledger comparison; identity of filter true over a malformed byte-string space",
     "rule": "cases = every input tree <= Ni nodes (5 leaves, 5 keys incl. \"*\" and a key with NUL) x every filter tree <= Nf nodes (8 leaves, 3 keys incl. \"*\"), "
-            "rendered as JSON and as MessagePack, filter passed as Filter(JsonDocument&) and Filter(JsonVariantConst); plus every byte string <= L over a 26-symbol "
+            "rendered as JSON and as MessagePack, filter passed as Filter(JsonDocument&) and Filter(JsonVariantConst); plus JSON objects that repeat a key (every ordered pair of 10 values x 4 shapes); plus every byte string <= L over a 26-symbol "
             "malformed alphabet and every 1-2 byte MessagePack string with filter true (identity) and 9 hostile filters (safety, memory); "
             "non-trivial = input is a container; distinct by input",
     "assumptions": ["project() in checks/ix_filter.hpp is written from the property statement; truthiness and equals-true follow the library's documented as<bool>()/== true",
